@@ -45,7 +45,7 @@ theorem C04_once_with_span (cx : Ctx) (n i : Nat) (nd : Node) (a : AMode) (m : R
     (h : run cx (n + 1) i a m env st = some r) (hok : r.res = .ok)
     (hact : hasAction a (cx.actOf env i nd) = true) :
     ∃ r0 : Ret, r0.res = .ok ∧
-      r.raw = Ev.enter i a m (cx.rep st.cur) :: Ev.start i (cx.rep st.cur) :: r0.raw ++
+      r.raw = Ev.enter i a m (cx.rep st.cur) env.ctl :: Ev.start i (cx.rep st.cur) env.ctl :: r0.raw ++
         [actEvent cx i (cx.actOf env i nd) env.sd st.cur r0.st.cur, Ev.success i (cx.rep r0.st.cur)] ++
         [Ev.exit i 1 (cx.rep r.st.cur)] ∧
       r.surv = r0.surv ++ [actEvent cx i (cx.actOf env i nd) env.sd st.cur r0.st.cur] ∧
@@ -56,9 +56,10 @@ theorem C04_once_with_span (cx : Ctx) (n i : Nat) (nd : Node) (a : AMode) (m : R
   simp only [bracket_res, guardRestore_res] at hok
   refine ⟨r0, ?_⟩
   unfold afterBody at hok ⊢
+  simp only [actionOutcome_withCtl, actEvent_withCtl, Ctx.withCtl_rep, Ctx.withCtl_unwind] at hok ⊢
   cases hr : r0.res with
   | thr e => simp [hr] at hok
-  | fail => simp [hr] at hok
+  | fail => simp only [hr] at hok; exact absurd hok (failureHook_res_ne_ok _ _ _ _)
   | ok =>
     simp only [hr] at hok ⊢
     have hno : actionOutcome cx i a (cx.actOf env i nd) st.cur r0.st.cur ≠ .noAction := by
@@ -68,36 +69,41 @@ theorem C04_once_with_span (cx : Ctx) (n i : Nat) (nd : Node) (a : AMode) (m : R
     cases ho : actionOutcome cx i a (cx.actOf env i nd) st.cur r0.st.cur with
     | noAction => exact absurd ho hno
     | throws => simp [ho] at hok
-    | vetoes => simp [ho] at hok
+    | vetoes => simp only [ho] at hok; exact absurd hok (failureHook_res_ne_ok _ _ _ _)
     | accepts =>
       refine ⟨trivial, ?_, ?_, ?_⟩
       · simp [bracket, guardRestore, Ret.dropOnFail, hr, Res.code]
       · simp [bracket, guardRestore, Ret.dropOnFail, hr]
       · simp [bracket, guardRestore, Ret.dropOnFail, hr]
 
-/-- No action event inside sections with actions disabled. -/
-def NoActs (l : List Ev) : Prop := ∀ e ∈ l, (∀ i sd b c, e ≠ Ev.apply i sd b c) ∧ (∀ i sd c, e ≠ Ev.apply0 i sd c)
+/-- No action event inside sections with actions disabled — neither of a rule's attached action nor of the action classes
+    named by `apply< … >` / `if_apply< R, … >`. -/
+def NoActs (l : List Ev) : Prop :=
+  ∀ e ∈ l, (∀ i sd b c, e ≠ Ev.apply i sd b c) ∧ (∀ i sd c, e ≠ Ev.apply0 i sd c) ∧ (∀ i sd b c, e ≠ Ev.ruleApply i sd b c)
 
-theorem NoActs_closed : RawClosed NoActs where
-  nil := by intro e he; simp at he
+theorem NoActs_closed : RawClosedE (fun _ => NoActs) where
+  nil := by intro _ e he; simp at he
   app := by
-    intro a b ha hb e he
+    intro _ a b ha hb e he
     simp only [List.mem_append] at he
     rcases he with he | he
     · exact ha e he
     · exact hb e he
   raise := by
-    intro i c e he
+    intro _ i c e he
     simp only [List.mem_singleton] at he; subst he; simp
-  sctor := by
-    intro d e he
-    simp only [List.mem_singleton] at he; subst he; simp
-  ssucc := by
-    intro d c o e he
-    simp only [List.mem_singleton] at he; subst he; simp
-  sdtor := by
-    intro d e he
-    simp only [List.mem_singleton] at he; subst he; simp
+  fam := id
+  ctlf := id
+  scope := by
+    intro env l o ho h e he
+    simp only [List.cons_append, List.append_assoc, List.mem_cons, List.mem_append, List.not_mem_nil, or_false] at he
+    rcases he with he | he | he | he
+    · subst he; simp
+    · exact h e he
+    · rcases ho with rfl | ⟨c, rfl⟩
+      · simp at he
+      · simp only [List.mem_singleton] at he; subst he; simp
+    · subst he; simp
 
 theorem NoActs.scope {l : List Ev} (h : NoActs l) (cx : Ctx) (o : Nat) (b : Bool) (r : Ret) (hl : r.raw = l) :
     NoActs (stateScope cx o b r).raw := by
@@ -139,7 +145,7 @@ theorem C04_disabled (cx : Ctx) (hne : NoEnable cx) : ∀ (n i : Nat) (m : RMode
         have hb : ∀ mm r2, body cx (fun i a m env st => run cx n i a m env st) n nd.kind .nothing mm ee st' = some r2 →
             NoActs r2.raw := fun mm r2 h2 =>
           body_rawA NoActs_closed cx n nd.kind .nothing hrec hrec
-            (fun ⟨c, hk⟩ => absurd hk (hne.1 i nd c hn)) mm ee st' r2 h2
+            (fun ⟨c, hk⟩ => absurd hk (hne.1 i nd c hn)) mm ee (fun h => absurd h (by simp)) st' r2 h2
         split at h1
         · exact hb _ _ h1
         · simp only [Option.map_eq_some_iff] at h1
@@ -151,17 +157,19 @@ theorem C04_disabled (cx : Ctx) (hne : NoEnable cx) : ∀ (n i : Nat) (m : RMode
           · subst he; simp
           · -- afterBody with actions disabled adds only success / failure / unwind
             unfold afterBody at he
+            simp only [actionOutcome_withCtl, actEvent_withCtl, Ctx.withCtl_rep, Ctx.withCtl_unwind] at he
             split at he
             · simp only [List.mem_append] at he
               rcases he with he | he
               · exact q2 e he
-              · split at he
-                · simp only [List.mem_singleton] at he; subst he; simp
-                · simp at he
-            · simp only [List.mem_append, List.mem_singleton] at he
-              rcases he with he | he
-              · exact q2 e he
-              · subst he; simp
+              · by_cases hu : cx.unwindOf ee.ctl = true
+                · simp only [hu, if_true, List.mem_singleton] at he; subst he; simp
+                · simp [hu] at he
+            · have key : NoActs (failureHook (cx.withCtl ee.ctl) i r2.st.cur r2).raw :=
+                failureHook_raw_closed (Q := NoActs) (fun ha hb => NoActs_closed.app (env := {}) ha hb)
+                  (by intro e he; simp only [List.mem_singleton] at he; subst he; simp)
+                  (fun _ => by intro e he; simp only [List.mem_singleton] at he; subst he; simp) q2
+              exact key e he
             · have hno : actionOutcome cx i .nothing (cx.actOf ee i nd) st'.cur r2.st.cur = .noAction := by
                 simp [actionOutcome, hasAction]
               simp only [hno, List.mem_append, List.mem_singleton] at he
@@ -198,6 +206,7 @@ theorem C04_disabled (cx : Ctx) (hne : NoEnable cx) : ∀ (n i : Nat) (m : RMode
         · simp only [Option.map_eq_some_iff] at h0
           obtain ⟨r1, h1, rfl⟩ := h0
           exact (ih _ _ _ _ _ h1).scope cx _ _ r1 rfl
+        · exact hcore _ _ _ h0
       intro e he
       simp only [bracket, dropOnFail_raw, List.mem_cons, List.mem_append, List.mem_singleton] at he
       rcases he with (he | he) | he
@@ -207,14 +216,65 @@ theorem C04_disabled (cx : Ctx) (hne : NoEnable cx) : ∀ (n i : Nat) (m : RMode
         · subst he; simp
         · simp at he
 
+/-- **`if_apply< R, A... >`** (the rule-level way to attach actions).  With actions enabled and at least one action named:
+    `R` is attempted with actions enabled; only if it matched are `A₁ … Aₙ` called, in this order, after all of `R`'s
+    events, each with the span from where `if_apply` was entered to where `R` stopped; the first `false` makes the whole
+    rule a local failure and an exception propagates; whenever the result is not success the cursor is back at the start
+    (a `required` guard of its own, whatever mode was requested).  With actions disabled it is just `R`. -/
+theorem C04_if_apply (cx : Ctx) (rec : Rec) (k : Nat) (c : Nat) (acts : List RuleAct) (a : AMode) (m : RMode) (env : Env)
+    (st : St) (r : Ret) (h : body cx rec k (.ifApply c acts) a m env st = some r) :
+    (a = .action ∧ acts ≠ [] →
+      ∃ r0, rec c .action .optional env st = some r0 ∧
+        (r0.res = .ok →
+          r.raw = r0.raw ++ (runActs cx env.sd st.cur r0.st.cur acts).2 ∧ r.res = (runActs cx env.sd st.cur r0.st.cur acts).1 ∧
+          (r.res = .ok → r.st = r0.st ∧ r.surv = r0.surv ++ (runActs cx env.sd st.cur r0.st.cur acts).2) ∧
+          (r.res ≠ .ok → r.st.cur = st.cur ∧ r.surv = [])) ∧
+        (r0.res ≠ .ok → r.raw = r0.raw ∧ r.res = r0.res ∧ r.st.cur = st.cur)) ∧
+    (¬(a = .action ∧ acts ≠ []) → rec c a m env st = some r) := by
+  simp only [body] at h
+  refine ⟨fun hc => ?_, fun hc => ?_⟩
+  · rw [if_pos hc] at h
+    simp only [Option.map_eq_some_iff] at h
+    obtain ⟨r0, h0, rfl⟩ := h
+    refine ⟨r0, h0, fun hok => ?_, fun hnok => ?_⟩
+    · simp only [hok]
+      refine ⟨by simp, by simp, fun hr => ?_, fun hr => ?_⟩
+      · simp only [dropOnFail_res, guardRestore_res] at hr
+        simp [Ret.dropOnFail, guardRestore, hr]
+      · simp only [dropOnFail_res, guardRestore_res] at hr
+        simp [Ret.dropOnFail, guardRestore, hr]
+    · cases hr : r0.res with
+      | ok => exact absurd hr hnok
+      | fail => simp [hr, Ret.dropOnFail, guardRestore]
+      | thr x => simp [hr, Ret.dropOnFail, guardRestore]
+  · rw [if_neg hc] at h
+    exact h
+
+/-- The calls made by `apply< A... >` / `if_apply`: one `ruleApply` event per action reached, in order; nothing after the
+    first `false` or exception. -/
+theorem C04_runActs_shape (cx : Ctx) (sd : Nat) (b e : Cursor) (acts : List RuleAct) :
+    ∃ n, n ≤ acts.length ∧
+      (runActs cx sd b e acts).2 = (acts.take n).map (fun x => Ev.ruleApply x.id sd (cx.rep b) (cx.rep e)) ∧
+      ((runActs cx sd b e acts).1 = .ok → n = acts.length) := by
+  induction acts with
+  | nil => exact ⟨0, by simp, by simp [runActs], fun _ => rfl⟩
+  | cons x xs ih =>
+    obtain ⟨n, hn, hev, hok⟩ := ih
+    simp only [runActs]
+    split
+    · exact ⟨1, by simp, by simp, fun h => by simp at h⟩
+    · split
+      · exact ⟨1, by simp, by simp, fun h => by simp at h⟩
+      · exact ⟨n + 1, by simpa using hn, by simp [hev], fun h => by simp [hok h]⟩
+
 /-- A vetoing `bool` action: local failure, `failure` hook, cursor back at the start of the match —
     whatever rewind mode was requested. -/
 theorem C04_veto (cx : Ctx) (n i : Nat) (nd : Node) (a : AMode) (m : RMode) (env : Env) (st : St) (r : Ret)
-    (hn : cx.g[i]? = some nd) (hc : nd.ctl = true) (hw : (cx.actOf env i nd).wrap = .none)
+    (hn : cx.g[i]? = some nd) (hc : nd.ctl = true) (hw : (cx.actOf env i nd).wrap = .none) (hm : i ∉ cx.msgs)
     (h : run cx (n + 1) i a m env st = some r)
     (hv : ∀ r0 : Ret, actionOutcome cx i a (cx.actOf env i nd) st.cur r0.st.cur = .vetoes ∨ r0.res ≠ .ok)
     : r.res ≠ .ok ∧ (r.res = .fail → r.st.cur = st.cur ∨ useGuard a (cx.actOf env i nd) = false) := by
-  obtain ⟨r0, tail, hraw, hcase⟩ := C08.C08_protocol cx n i nd a m env st r hn hc hw h
+  obtain ⟨r0, tail, hraw, hcase⟩ := C08.C08_protocol cx n i nd a m env st r hn hc hw hm h
   rcases hv r0 with hveto | hnok
   · cases hr : r0.res with
     | ok =>
